@@ -293,7 +293,10 @@ class _FilesystemDataSource(DataSource):
                     # Filter down to files that begin with file_prefix
                     if entry.name.startswith(file_prefix):
                         entry_name = unquote(entry.name)
-                        if entry_name.endswith(".link"):
+                        # Only link files carry the ".link" suffix. A directory is listed under
+                        # its own name, even if that name happens to end in ".link" (for example
+                        # a function whose version string does).
+                        if entry_name.endswith(".link") and not entry.is_dir():
                             entry_name = entry_name[
                                 0:-5
                             ]  # strip .link off end of string
